@@ -231,8 +231,34 @@ def rows():
         o, v = Fz(), x()
         object.__setattr__(o, 'f', v)
         return o.f is v
+    def store_through(attr, new, mk=x, via=lambda a: a.copy(deep=False)):
+        """c = <shallow copy / view of a>; c.<attr> = new: is the store seen through a (the translator's BUFFER_ATTRS row)?"""
+        a = mk()
+        before = snap(a)
+        c = via(a)
+        setattr(c, attr, new)
+        return snap(a) != before
+    x0 = lambda: sc.scalar(0.0, unit='angstrom')
+    mk_da = lambda: sc.DataArray(x(), coords={'x': x()})
+
+    def rebinding_data_is_local():
+        da = mk_da()
+        before = snap(da)
+        c = da.copy(deep=False)
+        c.data = x() * 2.0
+        return snap(da) == before
     d = {'a': x()}
     cont = [
+        ('c = x.copy(deep=False); c.value = v writes the storage of x', 'view', store_through('value', 1e-15, mk=x0)),
+        ('c = x.copy(deep=False); c.values = v writes the storage of x', 'view', store_through('values', np.array([9.0, 8.0, 7.0, 6.0]))),
+        ('c = x.copy(deep=False); c.variances = v writes the storage of x', 'view', store_through('variances', np.array([9.0, 8.0, 7.0]), mk=xv)),
+        ('c = x.copy(deep=False); c.variance = v writes the storage of x', 'view',
+         store_through('variance', 2.0, mk=lambda: sc.scalar(1.0, variance=1.0))),
+        ('c = x.copy(deep=False); c.unit = u changes the unit of x', 'view', store_through('unit', 'm')),
+        ('v = x[dim, a:b]; v.values = w writes x', 'view', store_through('values', np.array([9.0, 8.0]), via=lambda a: a['x', 0:2])),
+        ('c = da.copy(deep=False); c.values = v writes the data of da', 'view', store_through('values', np.array([9.0, 8.0, 7.0, 6.0]), mk=mk_da)),
+        ('c = da.copy(deep=False); c.unit = u changes the unit of da', 'view', store_through('unit', 'm', mk=mk_da)),
+        ('c = da.copy(deep=False); c.data = v rebinds the data of the copy only', 'view', rebinding_data_is_local()),
         ('dict(d) shares values', 'shallow', dict(d)['a'] is d['a'] and dict(d) is not d),
         ('list(l) shares elements', 'shallow', list([d])[0] is d),
         ('copy.copy(obj) shares attributes', 'shallow', copy.copy(d)['a'] is d['a']),
@@ -529,14 +555,56 @@ def builders(variant, layout, seed, sections=None):
         xvar = lambda: da.coords['d'].copy()
         par = lambda **k: {n: sc.scalar(np.array(v).astype(dt)[()], unit=u, dtype=dt) for n, (v, u) in k.items()}
         gp = lambda p='': par(**{p + 'amplitude': (3.0, f'counts*{unit}'), p + 'loc': (1.5 * f, unit), p + 'scale': (0.05 * f, unit)})
-        add('peaks.model.GaussianModel.__call__', M.GaussianModel.__call__, M.GaussianModel(), xvar(), **gp())
-        add('peaks.model.LorentzianModel.__call__', M.LorentzianModel.__call__, M.LorentzianModel(), xvar(), **gp())
-        add('peaks.model.PseudoVoigtModel.__call__', M.PseudoVoigtModel.__call__, M.PseudoVoigtModel(), xvar(),
-            **gp(), fraction=sc.scalar(np.array(0.4).astype(dt)[()], dtype=dt))
-        pp = lambda p='': par(**{p + 'a0': (1.0, 'counts'), p + 'a1': (0.5, f'counts/{unit}'), p + 'a2': (0.1, f'counts/{unit}^2')})
-        add('peaks.model.PolynomialModel.__call__', M.PolynomialModel.__call__, M.PolynomialModel(degree=2), xvar(), **pp())
+        # ---- parameter VALUE classes.  Ordinary values, and the degenerate but valid ones a caller (or the optimiser, whose
+        #      bounds are closed: scale in [0, inf), fraction in [0, 1]) hands in: an argument write that stores the value that
+        #      is already there for ordinary parameters (a clamp, a normalisation, abs) only shows for these.
+        tiny = float(np.finfo(dt).tiny)
+        PARAM_CLASSES = {
+            '': {},
+            'scale=0': {'scale': 0.0}, 'scale=tiny': {'scale': tiny}, 'scale<0': {'scale': -0.05 * f}, 'scale=-0.0': {'scale': -0.0},
+            'scale=inf': {'scale': float('inf')},
+            'amplitude=0': {'amplitude': 0.0}, 'amplitude<0': {'amplitude': -3.0},
+            'loc-outside': {'loc': -7.5 * f}, 'all-zero': {'amplitude': 0.0, 'loc': 0.0, 'scale': 0.0},
+            'fraction=0': {'fraction': 0.0}, 'fraction=1': {'fraction': 1.0}, 'fraction>1': {'fraction': 1.5},
+            'with-variances': {'_var': True}, 'scale=0,with-variances': {'scale': 0.0, '_var': True},
+        }
+        seeded = Rng(seed + 3)
+        PARAM_CLASSES['seeded-signs'] = {k: float(v) for k, v in zip(
+            ('amplitude', 'loc', 'scale', 'fraction'), seeded.r.choice([-1.0, 0.0, tiny, 1.0], 4) * seeded.uniform(0.0, 2.0, 4) * f)}
+        units_of = {'amplitude': f'counts*{unit}', 'loc': unit, 'scale': unit, 'fraction': 'dimensionless'}
+        base_of = {'amplitude': 3.0, 'loc': 1.5 * f, 'scale': 0.05 * f, 'fraction': 0.4}
+
+        def peak_params(names, pc, p=''):
+            spec = PARAM_CLASSES[pc]
+            outp = {}
+            for n in names:
+                v = np.array(spec.get(n, base_of[n])).astype(dt)[()]
+                kw = {'variance': np.array(abs(float(v)) * 0.01 + 1e-6).astype(dt)[()]} if spec.get('_var') else {}
+                outp[p + n] = sc.scalar(v, unit=units_of[n], dtype=dt, **kw)
+            return outp
+        gp = lambda p='', pc='': peak_params(('amplitude', 'loc', 'scale'), pc, p)
+        vp = lambda p='', pc='': peak_params(('amplitude', 'loc', 'scale', 'fraction'), pc, p)
+        pp = lambda p='', z=1.0: par(**{p + 'a0': (1.0 * z, 'counts'), p + 'a1': (0.5 * z, f'counts/{unit}'), p + 'a2': (0.1 * z, f'counts/{unit}^2')})
         comp = lambda: M.PolynomialModel(degree=2, prefix='b_') + M.GaussianModel(prefix='p_')
-        add('peaks.model.CompositeModel.__call__', M.CompositeModel.__call__, comp(), xvar(), **pp('b_'), **gp('p_'))
+        comp2 = lambda: M.LorentzianModel(prefix='l_') + M.PseudoVoigtModel(prefix='v_')
+        for pc in PARAM_CLASSES:
+            tag = f'[{pc}]' if pc else ''
+            # parameters with variances (as they come out of a fit): scipp refuses to broadcast them, so x is 0-d there
+            xarg = (lambda: xvar()['d', 60].copy()) if PARAM_CLASSES[pc].get('_var') else xvar
+            uses_fraction = 'fraction' in PARAM_CLASSES[pc]
+            if not uses_fraction or pc == 'seeded-signs':
+                add('peaks.model.GaussianModel.__call__' + tag, M.GaussianModel.__call__, M.GaussianModel(), xarg(), **gp(pc=pc))
+                add('peaks.model.LorentzianModel.__call__' + tag, M.LorentzianModel.__call__, M.LorentzianModel(), xarg(), **gp(pc=pc))
+                add('peaks.model.CompositeModel.__call__' + tag, M.CompositeModel.__call__, comp(), xarg(), **pp('b_'), **gp('p_', pc))
+                add('peaks.model.GaussianModel.fwhm' + tag, M.GaussianModel.fwhm, M.GaussianModel(), gp(pc=pc))
+                add('peaks.model.LorentzianModel.fwhm' + tag, M.LorentzianModel.fwhm, M.LorentzianModel(), gp(pc=pc))
+            add('peaks.model.PseudoVoigtModel.__call__' + tag, M.PseudoVoigtModel.__call__, M.PseudoVoigtModel(), xarg(), **vp(pc=pc))
+            add('peaks.model.PseudoVoigtModel.fwhm' + tag, M.PseudoVoigtModel.fwhm, M.PseudoVoigtModel(), vp(pc=pc))
+            add('peaks.model.CompositeModel.__call__[lorentzian+pseudo-voigt]' + tag, M.CompositeModel.__call__, comp2(), xarg(),
+                **gp('l_', pc), **vp('v_', pc))
+        add('peaks.model.PolynomialModel.__call__', M.PolynomialModel.__call__, M.PolynomialModel(degree=2), xvar(), **pp())
+        add('peaks.model.PolynomialModel.__call__[all-zero]', M.PolynomialModel.__call__, M.PolynomialModel(degree=2), xvar(), **pp(z=0.0))
+        add('peaks.model.PolynomialModel.__call__[negative]', M.PolynomialModel.__call__, M.PolynomialModel(degree=2), xvar(), **pp(z=-1.0))
         for cls, kw in ((M.GaussianModel, {}), (M.LorentzianModel, {}), (M.PseudoVoigtModel, {}), (M.PolynomialModel, {'degree': 1})):
             add(f'peaks.model.{cls.__name__}.guess', M.Model.guess, cls(**kw), sc.values(da['d', 30:80]))
             add(f'peaks.model.{cls.__name__}.with_prefix', M.Model.with_prefix, cls(**kw), 'q_')
@@ -544,8 +612,6 @@ def builders(variant, layout, seed, sections=None):
             add(f'peaks.model.{cls.__name__}.param_names', M.Model.param_names.fget, cls(**kw))
         add('peaks.model.CompositeModel.guess', M.Model.guess, comp(), sc.values(da['d', 30:80]))
         add('peaks.model.Model.__add__', M.Model.__add__, M.PolynomialModel(degree=1, prefix='b_'), M.GaussianModel(prefix='p_'))
-        add('peaks.model.GaussianModel.fwhm', M.GaussianModel.fwhm, M.GaussianModel(), gp())
-        add('peaks.model.LorentzianModel.fwhm', M.LorentzianModel.fwhm, M.LorentzianModel(), gp())
         win = sc.scalar(np.array(0.6 * f).astype(dt)[()], unit=unit, dtype=dt)
         add('peaks.fit_peaks[scalar window]', P.fit_peaks, da.copy(), peak_estimates=est.copy(), windows=win, background='linear', peak='gaussian')
         w2 = sc.array(dims=['d', 'range'], values=(np.array([[1.2, 1.8], [2.9, 3.5]]) * f).astype(dt), unit=unit, dtype=dt)
@@ -559,6 +625,15 @@ def builders(variant, layout, seed, sections=None):
             add('peaks.FitResult.eval_peak', P.FitResult.eval_peak, mk_res()[0], xvar())
             add('peaks.FitResult.report', P.FitResult.report, mk_res()[0])
             add('peaks.FitResult.better_than', P.FitResult.better_than, mk_res()[0], mk_res()[1])
+            # a fit that ended on the boundary of the parameter domain (scale = 0: what the 'avoid division by 0' guards exist for)
+            def degenerate(r_, value):
+                popt = {k: (sc.scalar(np.array(value).astype(dt)[()], unit=v.unit, dtype=dt) if k.endswith('scale') else v.copy())
+                        for k, v in r_.popt.items()}
+                return dataclasses.replace(r_, popt=popt)
+            for tag, value in (('scale=0', 0.0), ('scale<0', -0.05 * f)):
+                add(f'peaks.FitResult.eval_model[{tag}]', P.FitResult.eval_model, degenerate(copy.deepcopy(res[0]), value), xvar())
+                add(f'peaks.FitResult.eval_peak[{tag}]', P.FitResult.eval_peak, degenerate(copy.deepcopy(res[0]), value), xvar())
+                add(f'peaks.remove_peaks[{tag}]', P.remove_peaks, sc.values(da), [degenerate(r_, value) for r_ in copy.deepcopy(res)])
         except Exception as ex:     # noqa: BLE001
             out.append(('peaks.remove_peaks', None, [], {}, {'skip': f'fit_peaks raised {type(ex).__name__} for this variant'}))
 
@@ -626,6 +701,96 @@ def builders(variant, layout, seed, sections=None):
             _opts={'ignore_args': [0], 'result_from_arg': 0, 'mask_dates': True, 'same_args_repeat': True})
         add('io.cif.Loop', CIF.Loop, {'l.x': sc.array(dims=['r'], values=[1.0, 2.0])})
         add('io.cif.Chunk', CIF.Chunk, {'k.a': sc.scalar(1.5, variance=0.01), 'k.b': 'text'})
+        # ---- the low-level interface with READY-MADE chunks / loops (objects the caller keeps and reuses in several blocks)
+        ldt = variant['dtype']
+        cols = lambda: {'l.x': sc.array(dims=['r'], values=np.array([1, 2, 3]).astype(ldt), unit=['us', 'ms'][variant['unit']], dtype=ldt),
+                        'l.y': sc.array(dims=['r'], values=[3.0, 4.0, 5.5], variances=[0.1, 0.2, 0.3])}
+        pairs = lambda: {'k.a': sc.scalar(1.5, variance=0.01), 'k.b': 'text', 'k.c': 'two\nlines', 'k.d': 7}
+        ITEM = {
+            'loop': lambda own: CIF.Loop(cols(), comment=own, schema=CIF.PD_SCHEMA),
+            'chunk': lambda own: CIF.Chunk(pairs(), comment=own, schema=CIF.CORE_SCHEMA),
+            'dict': lambda own: pairs(),
+            'pairs': lambda own: list(pairs().items()),
+        }
+
+        def written(*blocks):
+            def g():
+                f_ = io.StringIO()
+                CIF.save_cif(f_, list(blocks))
+                return f_.getvalue()
+            return g
+        ADD_COMMENTS = {'no comment': '', 'comment': 'added with a comment', 'non-ascii comment': 'mesuré à 5 K'}
+        for kind, mk in ITEM.items():
+            for own in (('', 'own comment') if kind in ('loop', 'chunk') else ('',)):
+                for cname, addc in ADD_COMMENTS.items():
+                    for share in (('unshared', 'in earlier block', 'in copy of earlier block', 'twice in the same block', 'in earlier block via add')
+                                  if kind in ('loop', 'chunk') else ('unshared',)):
+                        item = mk(own)
+                        target = CIF.Block('second', comment='the block added to')
+                        opts = {'ignore_args': [0]}        # Block.add appends to the block it is called on: that is its documented effect
+                        if share != 'unshared':
+                            first = CIF.Block('first', [{'a.b': 1}, item], comment='earlier')
+                            if share == 'in earlier block via add':
+                                first = CIF.Block('first')
+                                first.add(item)
+                            if share == 'in copy of earlier block':
+                                target = first.copy()
+                                target.name = 'second'
+                            if share == 'twice in the same block':
+                                target = first
+                            opts['watch_extra'] = {'earlier block': first} if target is not first else {}
+                            opts['observers'] = {'text the earlier block writes': written(first)} if target is not first else {}
+                        opts['observers'] = dict(opts.get('observers', {}), **{'text the item writes': (lambda it=item: _item_text(it))}) \
+                            if kind in ('loop', 'chunk') else opts.get('observers', {})
+                        label = f'io.cif.Block.add[{kind}{", " + own if own else ""}; {cname}; {share}]'
+                        kw = {'comment': addc} if addc else {}
+                        add(label, CIF.Block.add, target, item, _opts=opts, **kw)
+        # constructors / setters: the caller's containers and the objects built from the same containers
+        c0, p0 = cols(), pairs()
+        l_a, l_b = CIF.Loop(c0, comment='a'), CIF.Loop(c0, comment='b')
+        add('io.cif.Loop.__setitem__', CIF.Loop.__setitem__, l_a, 'l.z', sc.array(dims=['r'], values=np.array([7, 8, 9]).astype(ldt), dtype=ldt),
+            _opts={'ignore_args': [0], 'watch_extra': {'columns the loop was built from': c0, 'other loop built from the same columns': l_b},
+                   'observers': {'text the other loop writes': lambda: _item_text(l_b)}})
+        add('io.cif.Loop.__setitem__[existing column]', CIF.Loop.__setitem__, CIF.Loop(c0), 'l.x', c0['l.y'],
+            _opts={'ignore_args': [0], 'watch_extra': {'columns the loop was built from': c0}})
+        add('io.cif.Loop.__setitem__[refused: other length]', CIF.Loop.__setitem__, CIF.Loop(c0), 'l.z', sc.array(dims=['r'], values=[1.0]),
+            _opts={'watch_extra': {'columns the loop was built from': c0}})
+        k_a, k_b = CIF.Chunk(p0, comment='a'), CIF.Chunk(p0, comment='b')
+        add('io.cif.Chunk.__setitem__', CIF.Chunk.__setitem__, k_a, 'k.z', sc.scalar(2.5, unit='m'),
+            _opts={'ignore_args': [0], 'watch_extra': {'pairs the chunk was built from': p0, 'other chunk built from the same pairs': k_b},
+                   'observers': {'text the other chunk writes': lambda: _item_text(k_b)}})
+        add('io.cif.Chunk.__setitem__[existing key]', CIF.Chunk.__setitem__, CIF.Chunk(p0), 'k.a', 'replaced',
+            _opts={'ignore_args': [0], 'watch_extra': {'pairs the chunk was built from': p0}})
+        add('io.cif.Loop[comment, schema]', CIF.Loop, cols(), comment='c', schema=CIF.PD_SCHEMA)
+        add('io.cif.Loop[pairs]', CIF.Loop, dict(cols()), comment='é', schema=[CIF.PD_SCHEMA, CIF.CORE_SCHEMA])
+        add('io.cif.Chunk[comment, schema]', CIF.Chunk, pairs(), comment='c', schema=CIF.CORE_SCHEMA)
+        add('io.cif.Chunk[pairs]', CIF.Chunk, list(pairs().items()), comment='é')
+        shared_l, shared_c = ITEM['loop']('shared loop'), ITEM['chunk']('')
+        add('io.cif.Block[ready-made items]', CIF.Block, 'b', [shared_c, shared_l, pairs()], comment='bc', schema=CIF.PD_SCHEMA)
+        mk_two = lambda: (lambda l_, c_: [CIF.Block('one', [c_, l_], comment='1'), CIF.Block('two', [l_, {'x.y': 2}, c_], schema=CIF.PD_SCHEMA)])(
+            ITEM['loop']('shared loop'), ITEM['chunk']('shared chunk'))
+        add('io.cif.save_cif[blocks sharing items]', CIF.save_cif, io.StringIO(), mk_two(), comment='top',
+            _opts={'ignore_args': [0], 'result_from_arg': 0})
+        add('io.cif.save_cif[block, non-ascii comment]', CIF.save_cif, io.StringIO(), mk_two()[0], comment='mesuré',
+            _opts={'ignore_args': [0], 'result_from_arg': 0})
+        add('io.cif.save_cif[generator of blocks]', CIF.save_cif, io.StringIO(), tuple(mk_two()),
+            _opts={'ignore_args': [0], 'result_from_arg': 0})
+        two = mk_two()
+        add('io.cif.Block.write[items shared with another block]', CIF.Block.write, two[1], io.StringIO(),
+            _opts={'ignore_args': [1], 'result_from_arg': 1, 'watch_extra': {'other block': two[0]},
+                   'observers': {'text the other block writes': written(two[0])}})
+        add('io.cif.Block.copy[items shared with another block]', CIF.Block.copy, two[1],
+            _opts={'watch_extra': {'other block': two[0]}})
+        add('io.cif.Block.schema[items with schemas]', CIF.Block.schema.fget, mk_two()[1])
+        add('io.cif.Block.schema[own schema]', CIF.Block.schema.fget, CIF.Block('b', [ITEM['loop']('')], schema=CIF.CORE_SCHEMA))
+        add('io.cif.Chunk.write', CIF.Chunk.write, ITEM['chunk']('c'), io.StringIO(), _opts={'ignore_args': [1], 'result_from_arg': 1})
+        add('io.cif.Loop.write', CIF.Loop.write, ITEM['loop']('c'), io.StringIO(), _opts={'ignore_args': [1], 'result_from_arg': 1})
+        add('io.cif.Loop.schema', CIF.Loop.schema.fget, ITEM['loop']('c'))
+        # the builder over data the caller keeps: two builders derived from one base share the loops made from the data
+        base = mk_cif().with_reduced_powder_data(powder(), comment='reduced')
+        add('io.cif.CIF.with_reduced_powder_data[comment; base already has data]', CIF.CIF.with_reduced_powder_data, base, powder(),
+            comment='second data set', _opts={'observers': {'text the base builder writes': lambda: _builder_text(base)}})
+        add('io.cif.CIF.with_powder_calibration[comment]', CIF.CIF.with_powder_calibration, mk_cif(), cal(), comment='calibration')
 
     guard('io', sec_io)
     def sec_graphs_conversions():
@@ -663,6 +828,18 @@ import re
 DATE_RE = re.compile(r'_audit\.creation_date\s+\S+')
 
 
+def _item_text(item):
+    f_ = io.StringIO()
+    item.write(f_)
+    return f_.getvalue()
+
+
+def _builder_text(builder):
+    f_ = io.StringIO()
+    builder.save(f_)
+    return DATE_RE.sub('_audit.creation_date <date>', f_.getvalue())
+
+
 def result_snapshot(res, args, opts):
     if 'result_from_arg' in opts:
         res = args[opts['result_from_arg']].getvalue()
@@ -677,7 +854,13 @@ def run_one(label, fn, args, kwargs, opts, args2):
         rec.update(status='skip', why=opts.get('skip'))
         return rec
     ign = set(opts.get('ignore_args', []))
-    watched = lambda a, k: tuple(snap(x) for i, x in enumerate(a) if i not in ign) + tuple((n, snap(v)) for n, v in k.items())
+    # watch_extra: objects that are not arguments of THIS call but share parts with them (an earlier block holding the same loop,
+    # the dict a chunk was built from); observers: what earlier results produce today (the text an earlier block writes)
+    extra = opts.get('watch_extra', {})
+    observers = opts.get('observers', {})
+    watched = lambda a, k: (tuple(snap(x) for i, x in enumerate(a) if i not in ign) + tuple((n, snap(v)) for n, v in k.items())
+                            + tuple(('extra:' + n, snap(v)) for n, v in extra.items())
+                            + tuple(('observer:' + n, snap(g())) for n, g in observers.items()))
     before = watched(args, kwargs)
     try:
         res = fn(*args, **kwargs)
@@ -689,7 +872,7 @@ def run_one(label, fn, args, kwargs, opts, args2):
     after = watched(args, kwargs)
     rec['status'] = status
     rec['changed'] = first_diff(before, after)
-    rec['n_watched'] = len(args) - len(ign) + len(kwargs)
+    rec['n_watched'] = len(args) - len(ign) + len(kwargs) + len(extra) + len(observers)
     if opts.get('norepeat'):
         rec['repeat_equal'] = None
         return rec
@@ -906,7 +1089,8 @@ class World:
         self.models = [M.GaussianModel(prefix='g_'), M.PolynomialModel(degree=1, prefix='b_') + M.LorentzianModel(prefix='l_')]
         self.builder = cif.CIF('base', comment='base comment').with_reducers('prog 1').with_authors(
             self.Person(name='A', role='r1'))
-        self.block = cif.Block('blk', [{'k.a': 1}], comment='bc')
+        self.block = cif.Block('blk', [cif.Chunk({'k.a': 1}, comment='chunk of the base block'),
+                                       cif.Loop({'l.x': sc.array(dims=['r'], values=[1.0, 2.0])})], comment='bc')
 
     KEYS = {'tofkey': ['tof', 'wavelength'], 'bool': [True, False], 'iso': ['H', '50V', 'V'], 'model': [0, 1], 'none': [None]}
 
@@ -1013,7 +1197,10 @@ class World:
             if path is None:
                 r.name = 'mutated'
             elif path == '_content':
+                # through the public interface: a new chunk, and an item the copy already holds (shared with the block it was
+                # copied from: Block.copy is documented as shallow) added once more under a comment of its own
                 r.add({'m.x': 1})
+                r.add(r._content[0], comment='mutated')
             else:
                 return False
             return True
